@@ -9,7 +9,10 @@ from witness import parse_witnesses
 
 OBS = 'ObsC17'
 CLS = {'Exception': Exception, 'LookupError': LookupError, 'KeyError': KeyError, 'IndexError': IndexError,
-       'ValueError': ValueError}
+       'ValueError': ValueError,
+       # a different class with the SAME __name__ as ValueError (as two modules each defining `Timeout`)
+       'TwinError': type('ValueError', (Exception,), {})}
+NAME = {c: n for n, c in CLS.items()}
 
 
 def build(kid):
@@ -41,7 +44,7 @@ def leaves(err):
         if isinstance(c, Concurrent):
             out += leaves(c)
         else:
-            out.append(type(c).__name__)
+            out.append(NAME.get(type(c), type(c).__name__))
     return out
 
 
@@ -62,13 +65,13 @@ def observe(sc):
     return {'e': 'm', 'kids': kids, 'items': items, 'incl': incl, 'bare': bare,
             'isinst': isinstance(err, handler), 'issub': issubclass(type(err), handler), 'exc': caught,
             'ident': type(err) is Concurrent[tuple(typ(k) for k in kids)],
-            'flat': [type(c).__name__ for c in flat.children] if all(not isinstance(c, Concurrent) for c in flat.children)
+            'flat': [NAME.get(type(c), type(c).__name__) for c in flat.children] if all(not isinstance(c, Concurrent) for c in flat.children)
             else ['<nested>']}
 
 
 def deep(rng, depth):
     if depth == 0 or rng.random() < 0.4:
-        return ['P', rng.choice(['KeyError', 'IndexError', 'ValueError', 'LookupError'])]
+        return ['P', rng.choice(['KeyError', 'IndexError', 'ValueError', 'LookupError', 'TwinError'])]
     return ['C', [deep(rng, depth - 1) for _ in range(rng.randint(1, 3))]]
 
 
@@ -97,14 +100,18 @@ def run(check):
         kids = [deep(rng, 3) for _ in range(rng.randint(1, 3))]
         err = Concurrent(*[build(k) for k in kids])
         flat = err.flattened()
-        names = [type(c).__name__ if not isinstance(c, Concurrent) else '<nested>' for c in flat.children]
+        names = [NAME.get(type(c), type(c).__name__) if not isinstance(c, Concurrent) else '<nested>' for c in flat.children]
         want = Concurrent[tuple(set(type(c) for c in flat.children))] if '<nested>' not in names else None
         runs.append(({'kids': kids}, [{'e': 'f', 'kids': kids, 'flat': names,
                                        'flatmatch': want is not None and type(flat) is want}], 1))
     # equal specialisations are the identical class, whatever order / multiplicity
+    twin = CLS['TwinError']
     for a, b in [((KeyError, IndexError), (IndexError, KeyError)), ((KeyError, KeyError, ValueError), (ValueError, KeyError)),
-                 ((KeyError, ...), (..., KeyError)), ((LookupError,), (LookupError, LookupError))]:
+                 ((KeyError, ...), (..., KeyError)), ((LookupError,), (LookupError, LookupError)),
+                 ((twin, KeyError), (KeyError, twin))]:
         runs.append(({'spec': [str(a), str(b)]}, [{'e': 'id', 'same': Concurrent[a] is Concurrent[b]}], 1))
+    # classes that merely share a name give DIFFERENT specialisations
+    runs.append(({'spec': ['ValueError', 'its twin']}, [{'e': 'id', 'same': Concurrent[twin] is not Concurrent[ValueError]}], 1))
     check.programs += len(runs)
     usimrun.judge(check, OBS, runs)
 
